@@ -75,6 +75,72 @@ func runC18(p *Prog, r *Report) {
 			r.Site(1)
 			r.Check(n == 1, fnName(fn), "offers-persistent-error", "the persistent-error state offers the error on compPerErrC", fmt.Sprintf("%d offers", n), p.Pos(fn.Pos()))
 		}
+		if fn := resolveFn(p, r, "leveldb", "(*DB).compactionError"); fn != nil {
+			// every state that accepts a new error classifies it the same way: ErrReadOnly and
+			// corruption lead to the persistent state (which offers compPerErrC and takes the write
+			// lock), from the idle state AND from the transient-error state
+			isPersistentSel := func(in ssa.Instruction) bool {
+				sel, ok := in.(*ssa.Select)
+				if !ok {
+					return false
+				}
+				for _, st := range sel.States {
+					if st.Dir == 1 && isFieldLoad(st.Chan, tDB, "compPerErrC") {
+						return true
+					}
+				}
+				return false
+			}
+			anySel := func(in ssa.Instruction) bool { _, ok := in.(*ssa.Select); return ok }
+			isRO := cmpAtom("err==ErrReadOnly", token.EQL, func(v ssa.Value) bool { return isErrorType(v.Type()) }, func(v ssa.Value) bool {
+				u, ok := stripConv(v).(*ssa.UnOp)
+				if !ok {
+					return false
+				}
+				g, ok := u.X.(*ssa.Global)
+				return ok && g.Name() == "ErrReadOnly"
+			})
+			isCorr := boolAtom("IsCorrupted(err)", mCall("leveldb/errors.IsCorrupted"))
+			errIsNil := nilAtom("err==nil", func(v ssa.Value) bool { return isErrorType(v.Type()) })
+			nRecv := 0
+			instrs(fn, func(_ *ssa.BasicBlock, _ int, in ssa.Instruction) {
+				sel, ok := in.(*ssa.Select)
+				if !ok || isPersistentSel(in) {
+					return
+				}
+				k := -1
+				for i, st := range sel.States {
+					if st.Dir == 2 && isFieldLoad(st.Chan, tDB, "compErrSetC") {
+						k = i
+					}
+				}
+				if k < 0 {
+					return
+				}
+				nRecv++
+				thisCase := assumeBool(func(v ssa.Value) (bool, bool) {
+					b, ok := v.(*ssa.BinOp)
+					if !ok || b.Op != token.EQL {
+						return false, false
+					}
+					ex, ok := b.X.(*ssa.Extract)
+					if !ok || ex.Tuple != ssa.Value(sel) || ex.Index != 0 {
+						return false, false
+					}
+					j, isC := constInt(b.Y)
+					if !isC {
+						return false, false
+					}
+					return int(j) == k, true
+				})
+				starts := []point{{sel.Block(), indexOf(sel) + 1}}
+				label := "state@" + branchLabel(sel)
+				checkGuardExact(p, r, GuardSpec{Rule: "readonly-or-corruption-is-persistent:" + label, Fn: fn, Starts: starts, Extra: thisCase, Target: isPersistentSel, TargetDesc: "the persistent-error state is entered", Atoms: []Atom{isRO, isCorr, errIsNil}, G: func(a []bool) bool { return !a[2] && (a[0] || a[1]) }, GDesc: "the new error is ErrReadOnly or a corruption"}, func(in ssa.Instruction) bool { return anySel(in) && !isPersistentSel(in) }, "another state's select")
+				checkGuard(p, r, GuardSpec{Rule: "persistent-only-for-readonly-or-corruption:" + label, Fn: fn, Starts: starts, Extra: thisCase, Avoid: func(in ssa.Instruction) bool { return anySel(in) && !isPersistentSel(in) }, Target: isPersistentSel, TargetDesc: "entering the persistent-error state", Atoms: []Atom{isRO, isCorr, errIsNil}, G: func(a []bool) bool { return !a[2] && (a[0] || a[1]) }, GDesc: "ErrReadOnly ∨ corruption", MinTargets: 1})
+			})
+			r.Site(1)
+			r.Check(nRecv >= 2, fnName(fn), "error-accepting-states", "the idle and the transient-error state both accept new errors from compErrSetC", fmt.Sprintf("%d such states", nRecv), p.Pos(fn.Pos()))
+		}
 		r.End()
 		ruleChanInventory(p, r, "C18.6b")
 	}
